@@ -24,6 +24,57 @@ pub fn run_hair_spans(l: &[i128]) -> Vec<i128> {
     out
 }
 
+/// args: w h <builder ops> : the per-pixel contributions (x, y, alpha > 0) of the anti-aliased butt-cap hairline, in order
+pub fn run_hair_aa(l: &[i128]) -> Vec<i128> {
+    if l.len() < 2 {
+        return vec![-3];
+    }
+    let (w, h) = (l[0] as u32, l[1] as u32);
+    let path = match crate::c02::build_path(&l[2..]) {
+        Some(p) => p,
+        None => return vec![-8],
+    };
+    let ops = hairline_spans(&path, LineCap::Butt, true, w, h);
+    let mut out = Vec::new();
+    let mut px = |x: u32, y: u32, a: u8| {
+        if a != 0 {
+            out.extend_from_slice(&[x as i128, y as i128, a as i128]);
+        }
+    };
+    let mut other = false;
+    for op in ops {
+        match op {
+            BlitOp::AntiH { x, y, aa, runs } => {
+                let mut i = 0usize;
+                while i < runs.len() && runs[i] != 0 {
+                    for k in 0..runs[i] as usize {
+                        px(x + (i + k) as u32, y, aa[i]);
+                    }
+                    i += runs[i] as usize;
+                }
+            }
+            BlitOp::V { x, y, height, alpha } => {
+                for k in 0..height {
+                    px(x, y + k, alpha);
+                }
+            }
+            BlitOp::AntiH2 { x, y, alpha0, alpha1 } => {
+                px(x, y, alpha0);
+                px(x + 1, y, alpha1);
+            }
+            BlitOp::AntiV2 { x, y, alpha0, alpha1 } => {
+                px(x, y, alpha0);
+                px(x, y + 1, alpha1);
+            }
+            _ => other = true,
+        }
+    }
+    if other {
+        out.push(-77);
+    }
+    out
+}
+
 fn cap_of(c: i128) -> LineCap {
     match c {
         1 => LineCap::Round,
